@@ -39,7 +39,7 @@ RecursionKey = Tuple[AnyType, Optional[AnyConversion]]
 class RecursiveChecker(ConversionsVisitor[Conv, Any], ObjectVisitor[Any]):
     def __init__(self, default_conversion: DefaultConversion):
         super().__init__(default_conversion)
-        self._cache = recursion_cache(self.__class__)
+        self._cache = recursion_cache(self.__class__, default_conversion)
         # Types cached as recursive by this checker; recursive entries of the shared
         # cache cannot be used to skip a type, because they can come from the
         # unfinished visit of another checker, running in another thread.
@@ -135,7 +135,10 @@ class SerializationRecursiveChecker(
 
 
 @cache  # use @cache for reset
-def recursion_cache(checker_cls: Type[RecursiveChecker]) -> Dict[RecursionKey, bool]:
+def recursion_cache(
+    checker_cls: Type[RecursiveChecker], default_conversion: DefaultConversion
+) -> Dict[RecursionKey, bool]:
+    # the default conversion decides what the types are made of
     return {}
 
 
@@ -146,7 +149,8 @@ def is_recursive(
     default_conversion: DefaultConversion,
     checker_cls: Type[RecursiveChecker],
 ) -> bool:
-    cache, rec_key = recursion_cache(checker_cls), (tp, conversion)
+    cache = recursion_cache(checker_cls, default_conversion)
+    rec_key = (tp, conversion)
     if rec_key not in cache:
         checker = checker_cls(default_conversion)
         checker.visit_with_conv(tp, conversion)
